@@ -98,7 +98,6 @@ func c14SourceValidators(c *Ctx) {
 					}
 				}
 			}
-			kd := r.Bytes(n)
 			kl := n
 			if !clean && r.Intn(10) == 0 {
 				kl = n + 1 - 2*r.Intn(2)
@@ -106,8 +105,14 @@ func c14SourceValidators(c *Ctx) {
 					kl = 1
 				}
 			}
+			// data longer than its declared length by exactly the range of the 16-bit length field
+			// (the declared length is then what a truncating conversion of the real one gives)
+			if !clean && (i%97 == 13 || r.Intn(60) == 0) {
+				n = kl + 65536
+			}
+			kd := r.Bytes(n)
 			keys = append(keys, lease_set2.EncryptionKey{KeyType: uint16(kt), KeyLen: uint16(kl), KeyData: kd})
-			keyWire = cat(keyWire, u16(kt), u16(kl), u16(n), kd)
+			keyWire = cat(keyWire, u16(kt), u16(kl), []byte{byte(n >> 16), byte(n >> 8), byte(n)}, kd)
 		}
 		nl := []int{0, 1, 1, 2, 16, 17}[r.Intn(6)]
 		if clean {
